@@ -81,7 +81,7 @@ def gen(rng, tier):
         vs = b"".join(enc(little, 2, v) for v in versym)
         has_needs = bool(needs) or rng.random() < 0.3
         has_defs = bool(defs) or rng.random() < 0.3
-        idxs = list(range(nsym)) + [nsym, nsym + 3, USIZE_MAX]
+        idxs = list(range(nsym)) + [nsym, nsym + 3, USIZE_MAX, 2**63, 2**63 + 1, 2**62, 2**32]     # 2^63 * 2 wraps to 0
         if k % 3:
             line = "symvert %s %d %s %d %d 0 %s %s %d %d 0 %s %s | %s" % (
                 spec, cl, hx(vs), 1 if has_needs else 0, len(needs), hx(vn), hx(strs), 1 if has_defs else 0, len(defs), hx(vd), hx(strs),
@@ -130,6 +130,12 @@ def gen(rng, tier):
                 dd, _m = e2.build(rng)
                 cases.append("bytes any %s | symver %s" % (hx(dd), " ".join(str(i) for i in idxs)))
         cases.append(line)
+    # the four record iterators driven through the provided Iterator methods (nth / skip / step_by / count / last) over
+    # contiguous and non-contiguous chains: decided by the model
+    import props.C16 as C16
+    for _ in range(40 if tier == "quick" else 600):
+        for kind in ("verdef", "verneed", "verdaux", "vernaux"):
+            cases.append(C16.viter_case(rng, kind, rng.random() < 0.5))
     return cases
 
 
